@@ -693,6 +693,9 @@ def run(ctx, load):
     ctx.floor('C12.refusal-first', 14)
     check_table_resize_refusal(P, ctx)
     check_node_caches(P, ctx)
+    from . import seqmodel
+    seqmodel.report_list_ops(P, ctx, 'C12.refused-list-operation', 'refused', site)
+    ctx.floor('C12.refused-list-operation', 6)
 
 
 EXPLANATION = (
